@@ -91,6 +91,8 @@ def _alphabet() -> Dict[str, Dict[str, Any]]:
     op("stack_mean", "stack_mean", "torch.stack([{h}, {h} * 0.5], dim=0).sum(0)", lambda h, m, i: ((h,), {}))
     op("masked", "masked", "{h} * ({h} > 0).to({h}.dtype)", lambda h, m, i: ((h,), {}))
     op("cmp_two", "cmp_two", "{h} * ({h} > torch.tanh({h})).to({h}.dtype)", lambda h, m, i: ((h,), {}))
+    op("gather_argmax", "gather_argmax", "torch.gather({h}, -1, {h}.argmax(-1).unsqueeze(-1).expand(B, S, D))", lambda h, m, i: ((h,), {}))
+    op("add_ones", "add_ones", "{h} + torch.ones_like({h})", lambda h, m, i: ((h,), {}))
     op("index_rows", "index_rows", "{h}[:, torch.arange(S - 1, -1, -1)]", lambda h, m, i: ((h,), {}))
     op("with_zeros", "with_zeros", "{h} * self.zmask{i}", lambda h, m, i: ((h, g(m, "zmask", i)), {}),
        ["self.register_buffer('zmask{i}', (torch.arange(D) % 3 != 0).float())"])
@@ -296,6 +298,8 @@ class Semantics:
             "stack_mean": lambda h: torch.stack([h, h * 0.5], dim=0).sum(0),
             "masked": lambda h: h * (h > 0).to(h.dtype),
             "cmp_two": lambda h: h * (h > torch.tanh(h)).to(h.dtype),
+            "gather_argmax": lambda h: torch.gather(h, -1, h.argmax(-1).unsqueeze(-1).expand(B, S, D)),
+            "add_ones": lambda h: h + torch.ones_like(h),
             "index_rows": lambda h: h[:, torch.arange(S - 1, -1, -1)],
             "with_zeros": lambda h, z: h * z,
             "view_inplace": lambda h: (h * 2.0) + (h * 2.0)[:, 0].unsqueeze(1),
